@@ -102,7 +102,7 @@ def stream_sql_and_e2e(ck, model_ok, tm=None):
     for key, t in G.all_triples():
         cases.append(("triple:%s/%s/%s" % key, t, allrows))
     seenf = set()
-    for t in G.fold_cases() + G.null_cases():
+    for t in G.fold_cases() + G.null_cases() + G.case_cases():
         s = G.prql(t)
         if s not in seenf:
             seenf.add(s)
@@ -351,6 +351,136 @@ def stream_sql_and_e2e(ck, model_ok, tm=None):
                                  {"stream": "mirror", "expr": srcs[k], "env": [str(v) for v in env], "python": py, "coq": [tag, num, den]})
     cov = ck.coverage["streams"].get("e2e-edges", {}).get("hist", {})
     ck.coverage["triples_exercised"] = len(cov)
+
+
+# ----------------------------------------------------------------------------- (b') filter conditions
+
+def stream_filter(ck, model_ok):
+    """`from t | filter E`: the WHERE path.  Expressions held by a transform (filter, join) are the ones the SQL back
+    end takes from the pipeline AFTER the Normalizer (select / derive columns are translated from the declarations
+    registered before it).  Per condition and dialect: model text vs the WHERE clause, byte for byte; RQ before /
+    after the Normalizer vs the model (hook); and the rows kept by SQLite vs the rows where eval_doc is true."""
+    rows = M.table_rows()
+    cases = G.cond_cases(ck.rng, ck.n(120, 420))
+    seen = set()
+    cases = [t for t in cases if not (G.prql(t) in seen or seen.add(G.prql(t)))]
+    srcs = [G.prql(t) for t in cases]
+    model = [None] * len(cases)
+    if model_ok:
+        try:
+            hdr = M.HEADER.replace("Model.EvalDoc", "Model.EvalDoc Model.SqlSem Model.SqlCompat Model.C02Probe") + "Definition envs : list (list val) := [].\n"
+            model = coq_eval_retry(ck, hdr, ["probe %s envs" % G.coq(t) for t in cases])
+        except (RuntimeError, ValueError, TypeError) as ex:
+            ck.coverage["filter_model_error"] = str(ex)[-600:]
+            model = [None] * len(cases)
+            ck.violation("the models could not be evaluated on the filter conditions", {"kind": "model-evaluation-failed", "error": str(ex)[-600:]}, no_input=True)
+    import sqlite3
+    conn = sqlite3.connect(":memory:")
+    for st in M.setup_sql(rows):
+        conn.execute(st)
+    exp_cache = {}
+    for di, dialect in enumerate(M.DIALECTS):
+        reqs = [{"src": "from t | filter (%s)" % s_, "target": "sql." + dialect, "format": False, "sig": False,
+                 "want": ["ReprRq"], "msg_prefix": "verif:preprocess"} for s_ in srcs]
+        ans = harness("log", reqs)
+        hook_missing = 0
+        for k, (t, a) in enumerate(zip(cases, ans)):
+            src = "from t | filter (%s)" % srcs[k]
+            ck.stat("filter", "%s:%s" % (dialect, "compiled" if "ok" in a else "rejected"))
+            if "ok" not in a:
+                continue
+            sql = a["ok"]
+            mw = None
+            pre = "SELECT * FROM t WHERE "
+            if sql.startswith(pre):
+                mw = sql[len(pre):]
+            mk = model[k]
+            corner = bool(mk[1]) if mk is not None else False
+            per = mk[0][di] if mk is not None and mk[0] else None
+            mt = M.codes_text(per[0]) if per is not None else None
+            bad = Q.triples_py(per[2]) if per is not None else None
+            case = {"stream": "filter", "dialect": dialect, "src": src, "expr": srcs[k], "sql": sql, "model_sql": mt,
+                    "kinds": sorted(G.kinds_of(t)), "edges": ["%s/%s/%s" % e for e in G.edges(t)], "bad_triples": bad}
+            ck.count("filter", dialect + "|" + srcs[k], nontrivial=True)
+            # (1) text of the WHERE clause
+            if mt is not None and mw is not None and mt != mw:
+                c2 = dict(case); c2["stream"] = "sqltext"; c2["model"] = mt; c2["impl"] = mw
+                ck.disagreement("WHERE text differs for %r (%s): model %r, implementation %r" % (srcs[k], dialect, mt, mw), c2, classify_text)
+            # (2) RQ of the condition before / after the Normalizer
+            names, norm = {}, None
+            for en in a.get("entries", []):
+                if "ReprRq" in en:
+                    try:
+                        for st in en["ReprRq"]["relation"]["kind"]["Pipeline"]:
+                            if "From" in st:
+                                for col, cid in st["From"]["columns"]:
+                                    if isinstance(col, dict) and col.get("Single") in ("a", "b", "c"):
+                                        names[cid] = "abc".index(col["Single"])
+                    except (KeyError, TypeError):
+                        pass
+                elif "Message" in en and en["Message"].endswith('"pass":"normalize"}'):
+                    norm = json.loads(en["Message"][len("verif:preprocess "):])
+            if norm is None:
+                hook_missing += 1
+            elif mk is not None:
+                try:
+                    fin = [x for x in norm["in"]["pipeline"] if x.get("kind") == "Filter"]
+                    fout = [x for x in norm["out"]["pipeline"] if x.get("kind") == "Filter"]
+                    if len(fin) == 1 and len(fout) == 1:
+                        i_in, i_out = M.rq_text(fin[0]["expr"], names), M.rq_text(fout[0]["expr"], names)
+                        m_in, m_out = M.codes_text(("Some", mk[3][0])), M.codes_text(("Some", mk[3][1]))
+                        ck.count("rq", "%s|filter|%s" % (dialect, srcs[k]), nontrivial=True)
+                        ck.stat("rq", "normalizer:" + ("swapped" if i_in != i_out else "identity"))
+                        if i_in != m_in:
+                            ck.disagreement("RQ of the filter condition differs for %r: model %s, implementation %s" % (srcs[k], m_in, i_in),
+                                            {"stream": "rq", "pass": "resolve", "dialect": dialect, "src": src, "model": m_in, "impl": i_in}, classify_text)
+                        elif i_out != m_out:
+                            ck.disagreement("Normalizer output differs for the filter condition %r: model (normalize) %s, implementation %s (input %s)" % (srcs[k], m_out, i_out, i_in),
+                                            {"stream": "rq", "pass": "normalize", "dialect": dialect, "src": src, "input": i_in, "model": m_out, "impl": i_out}, classify_text)
+                    else:
+                        ck.stat("rq", dialect + ":outside-the-hook-view")
+                except (KeyError, TypeError, M.RqUnmodelled):
+                    ck.stat("rq", dialect + ":outside-the-hook-view")
+            # (3) rows kept
+            if corner:
+                ck.stat("filter", "excluded-corner")
+                continue
+            try:
+                got = conn.execute(sql).fetchall()
+            except sqlite3.Error as ex:
+                case["exec_err"] = str(ex)
+                ck.disagreement("emitted statement does not execute for %r (%s): %s" % (src, dialect, ex), case, classify_e2e)
+                continue
+            if k not in exp_cache:
+                keep, skip = [], set()
+                for env in rows:
+                    try:
+                        v = G.eval_doc(t, env)
+                        if G.truth(v) is True:
+                            keep.append(env)
+                    except (G.Undef, G.Inexact):
+                        skip.add(env)
+                exp_cache[k] = (keep, skip)
+            keep, skip = exp_cache[k]
+            gotn = [tuple(M.obs_val(x) for x in r_) for r_ in got]
+            gotn = [r_ for r_ in gotn if r_ not in skip]
+            same_rows = len(gotn) == len(keep) and all(all(M.same(x, y) for x, y in zip(g, e)) for g, e in zip(gotn, keep))
+            ck.stat("filter", dialect + ":rows-compared")
+            if not same_rows:
+                gs = set(gotn); ks = set(keep)
+                extra = [r_ for r_ in gotn if r_ not in ks][:1]
+                lost = [r_ for r_ in keep if r_ not in gs][:1]
+                case.update({"rows_kept": len(gotn), "rows_expected": len(keep), "kept_but_not_true": [str(x) for x in (extra[0] if extra else [])],
+                             "true_but_dropped": [str(x) for x in (lost[0] if lost else [])], "rows_wrong": len(gs ^ ks), "rows_compared": len(rows) - len(skip)})
+                c2 = dict(case); c2["stream"] = "e2e"
+                ck.disagreement("rows kept differ for %r (%s): WHERE %s keeps %d rows, the condition is true on %d (kept but not true: %s; true but dropped: %s)" % (
+                    src, dialect, mw, len(gotn), len(keep), case["kept_but_not_true"], case["true_but_dropped"]), c2, classify_e2e)
+            elif k % 67 == 0:
+                ck.sample({"stream": "filter", "dialect": dialect, "src": src, "sql": sql, "rows_kept": len(gotn)})
+        if hook_missing:
+            ck.violation("the verif:preprocess hook (pass normalize) is not in this tree: %d compiled filters produced no hook line (fail closed)" % hook_missing,
+                         {"kind": "hook-missing", "hook": "verif:preprocess", "programs": hook_missing}, no_input=True)
+    conn.close()
 
 
 # ----------------------------------------------------------------------------- (c) std function calls
